@@ -185,7 +185,14 @@ func (e *cacheEngine) Execute(t *testing.T, plan *Plan, res *Result) {
 						record(cl, cacheIn{op: "delete", key: k}, call, cacheOut{})
 					case x < 76: // EvictFile
 						h.EvictFile(fn)
-						record(cl, cacheIn{op: "evict", key: k}, call, cacheOut{})
+						// EvictFile works shard by shard and in chunks, dropping the
+						// shard mutex in between: it is not atomic across blocks. It
+						// is therefore recorded as one clear per block of the file,
+						// all spanning the call.
+						ret := stamp()
+						for o := 0; o < c.Offsets; o++ {
+							ops = append(ops, porcupine.Operation{ClientId: cl, Input: cacheIn{op: "delete", key: cacheKey{h: k.h, file: k.file, off: o}}, Call: call, Output: cacheOut{}, Return: ret})
+						}
 					default: // GetWithReadHandle
 						v, rh, _, _, hit, err := h.GetWithReadHandle(context.Background(), fn, off, base.MakeLevel(0), cache.CategorySSTableData)
 						switch {
@@ -260,11 +267,11 @@ func (e *cacheEngine) Execute(t *testing.T, plan *Plan, res *Result) {
 		// EvictFile clear.
 		model := porcupine.Model{
 			Partition: func(history []porcupine.Operation) [][]porcupine.Operation {
-				m := map[[2]int][]porcupine.Operation{}
-				var keys [][2]int
+				m := map[[3]int][]porcupine.Operation{}
+				var keys [][3]int
 				for _, o := range history {
 					k := o.Input.(cacheIn).key
-					pk := [2]int{k.h, k.file}
+					pk := [3]int{k.h, k.file, k.off}
 					if _, ok := m[pk]; !ok {
 						keys = append(keys, pk)
 					}
